@@ -4,3 +4,4 @@ import TxV.Props.C01
 import TxV.Props.C02
 import TxV.Props.C03
 import TxV.Props.C12
+import TxV.Props.C13
